@@ -13,6 +13,16 @@ extern size_t gh_li; /* witness: index into state->buffer */
  * 10^6-byte symbolic buffers; it is enforced in the thorough tier (-DLEX_CONTENT) and, for every
  * tier, by the bounded language-equivalence jobs.  Shape, extent, rollback, first/last byte and
  * local maximality are enforced always. */
+/* Clauses about individual BYTES of the input (first/last byte of a token, the byte at the cursor)
+ * are part of every recogniser's enforced contract (lexer jobs define LEX_BYTES).  Callers that only
+ * need extents and types use the same contracts with these clauses left out - a weaker, hence
+ * still valid, contract - because every byte read at a symbolic index of the 10^6-byte input costs
+ * the back end dearly. */
+#ifdef LEX_BYTES
+#define BYTE_ENS(e) __CPROVER_ensures(e)
+#else
+#define BYTE_ENS(e)
+#endif
 #ifdef LEX_CONTENT
 #define CONTENT_ENS(e) __CPROVER_ensures(e)
 #define LOOP_CONTENT(e) && (e)
@@ -165,6 +175,7 @@ TOK_HEAD(scpiLex_WhiteSpace)
 __CPROVER_ensures(TOK_SPAN(state, token) && RET == token->len)
 __CPROVER_ensures(token->type == (token->len > 0 ? SCPI_TOKEN_WS : SCPI_TOKEN_UNKNOWN))
 __CPROVER_ensures(NEXT_NOT(state, ISWS))
+__CPROVER_ensures(token->len > 0 ==> ISWS(POS0(state)[0]))
 CONTENT_ENS(CONSUMED(state) ==> ISWS(state->buffer[gh_li]))
 ;
 
@@ -178,19 +189,20 @@ __CPROVER_ensures(RET == token->len && token->len >= 0)
 __CPROVER_ensures(IS_HEADER_TYPE(token->type) || token->type == SCPI_TOKEN_UNKNOWN)
 __CPROVER_ensures(token->type == SCPI_TOKEN_UNKNOWN ==> TOK_REJECT(state, token))
 __CPROVER_ensures(token->type != SCPI_TOKEN_UNKNOWN ==> (TOK_SPAN(state, token) && token->len > 0))
-__CPROVER_ensures(IS_COMMON_TYPE(token->type) <==> (token->len > 0 && token->ptr[0] == '*'))
-__CPROVER_ensures(IS_QUERY_TYPE(token->type) ==> (token->len >= 2 && token->ptr[token->len - 1] == '?'))
-__CPROVER_ensures((token->type == SCPI_TOKEN_COMMON_PROGRAM_HEADER || token->type == SCPI_TOKEN_COMPOUND_PROGRAM_HEADER) ==> (LEX_ATEND(state) || state->pos[0] != '?'))
-__CPROVER_ensures(token->type == SCPI_TOKEN_UNKNOWN ==> (LEX_ATEND(state) || !(state->pos[0] == '*' || state->pos[0] == ':' || ISALPHA(state->pos[0]))))
+BYTE_ENS(IS_COMMON_TYPE(token->type) <==> (token->len > 0 && token->ptr[0] == '*'))
+__CPROVER_ensures(IS_QUERY_TYPE(token->type) ==> token->len >= 2)
+BYTE_ENS(IS_QUERY_TYPE(token->type) ==> token->ptr[token->len - 1] == '?')
+BYTE_ENS((token->type == SCPI_TOKEN_COMMON_PROGRAM_HEADER || token->type == SCPI_TOKEN_COMPOUND_PROGRAM_HEADER) ==> (LEX_ATEND(state) || state->pos[0] != '?'))
+BYTE_ENS(token->type == SCPI_TOKEN_UNKNOWN ==> (LEX_ATEND(state) || !(state->pos[0] == '*' || state->pos[0] == ':' || ISALPHA(state->pos[0]))))
 CONTENT_ENS(CONSUMED(state) ==> (ISMNE(state->buffer[gh_li]) || state->buffer[gh_li] == ':' || state->buffer[gh_li] == '*' || state->buffer[gh_li] == '?'))
 ;
 
 TOK_HEAD(scpiLex_CharacterProgramData)
 __CPROVER_ensures(TOK_SPAN(state, token) && RET == token->len)
 __CPROVER_ensures(token->type == (token->len > 0 ? SCPI_TOKEN_PROGRAM_MNEMONIC : SCPI_TOKEN_UNKNOWN))
-__CPROVER_ensures(token->len > 0 ==> ISALPHA(token->ptr[0]))
+BYTE_ENS(token->len > 0 ==> ISALPHA(token->ptr[0]))
 CONTENT_ENS(CONSUMED(state) ==> ISMNE(state->buffer[gh_li]))
-__CPROVER_ensures(LEX_ATEND(state) || (token->len == 0 ? !ISALPHA(state->pos[0]) : !ISMNE(state->pos[0])))
+BYTE_ENS(LEX_ATEND(state) || (token->len == 0 ? !ISALPHA(state->pos[0]) : !ISMNE(state->pos[0])))
 ;
 
 TOK_HEAD(scpiLex_DecimalNumericProgramData)
@@ -203,14 +215,14 @@ __CPROVER_ensures(token->len > 0 ==> NEXT_NOT(state, ISDIG))
 CONTENT_ENS(CONSUMED(state) ==> (ISDIG(state->buffer[gh_li]) || ISWS(state->buffer[gh_li]) || state->buffer[gh_li] == '.' || state->buffer[gh_li] == '+'
     || state->buffer[gh_li] == '-' || state->buffer[gh_li] == 'e' || state->buffer[gh_li] == 'E'))
 /* nothing that starts with a digit is rejected */
-__CPROVER_ensures(token->len == 0 ==> (LEX_ATEND(state) || !ISDIG(state->pos[0])))
+BYTE_ENS(token->len == 0 ==> (LEX_ATEND(state) || !ISDIG(state->pos[0])))
 ;
 
 TOK_HEAD(scpiLex_SuffixProgramData)
 __CPROVER_ensures(TOK_SPAN(state, token) && RET == token->len)
 __CPROVER_ensures(token->type == (token->len > 0 ? SCPI_TOKEN_SUFFIX_PROGRAM_DATA : SCPI_TOKEN_UNKNOWN))
-__CPROVER_ensures(token->len > 0 ==> (ISALPHA(token->ptr[0]) || token->ptr[0] == '/'))
-__CPROVER_ensures(token->len == 0 ==> (LEX_ATEND(state) || !(ISALPHA(state->pos[0]) || state->pos[0] == '/')))
+BYTE_ENS(token->len > 0 ==> (ISALPHA(token->ptr[0]) || token->ptr[0] == '/'))
+BYTE_ENS(token->len == 0 ==> (LEX_ATEND(state) || !(ISALPHA(state->pos[0]) || state->pos[0] == '/')))
 CONTENT_ENS(CONSUMED(state) ==> (ISALPHA(state->buffer[gh_li]) || ISDIG(state->buffer[gh_li]) || state->buffer[gh_li] == '/' || state->buffer[gh_li] == '.' || state->buffer[gh_li] == '-'))
 ;
 
@@ -218,11 +230,11 @@ TOK_HEAD(scpiLex_NondecimalNumericData)
 __CPROVER_ensures(token->type == SCPI_TOKEN_HEXNUM || token->type == SCPI_TOKEN_OCTNUM || token->type == SCPI_TOKEN_BINNUM || token->type == SCPI_TOKEN_UNKNOWN)
 __CPROVER_ensures(token->type == SCPI_TOKEN_UNKNOWN ==> (TOK_REJECT(state, token) && RET == 0))
 /* accepted: token = the digits after the 2-byte prefix; result counts the prefix */
-__CPROVER_ensures(token->type != SCPI_TOKEN_UNKNOWN ==> (token->len >= 1 && PTR_IS(token->ptr, POS0(state) + 2) && DISP(state) == (long) token->len + 2 && RET == token->len + 2))
-__CPROVER_ensures(token->type != SCPI_TOKEN_UNKNOWN ==> POS0(state)[0] == '#')
-__CPROVER_ensures(token->type == SCPI_TOKEN_HEXNUM ==> ((POS0(state)[1] == 'h' || POS0(state)[1] == 'H') && NEXT_NOT(state, ISXDIG)))
-__CPROVER_ensures(token->type == SCPI_TOKEN_OCTNUM ==> ((POS0(state)[1] == 'q' || POS0(state)[1] == 'Q') && NEXT_NOT(state, ISODIG)))
-__CPROVER_ensures(token->type == SCPI_TOKEN_BINNUM ==> ((POS0(state)[1] == 'b' || POS0(state)[1] == 'B') && NEXT_NOT(state, ISBDIG)))
+__CPROVER_ensures(token->type != SCPI_TOKEN_UNKNOWN ==> (token->len >= 1 && DISP(state) == (long) token->len + 2 && RET == token->len + 2 && PTR_IS(token->ptr, POS0(state) + 2)))
+BYTE_ENS(token->type != SCPI_TOKEN_UNKNOWN ==> POS0(state)[0] == '#')
+BYTE_ENS(token->type == SCPI_TOKEN_HEXNUM ==> ((POS0(state)[1] == 'h' || POS0(state)[1] == 'H') && NEXT_NOT(state, ISXDIG)))
+BYTE_ENS(token->type == SCPI_TOKEN_OCTNUM ==> ((POS0(state)[1] == 'q' || POS0(state)[1] == 'Q') && NEXT_NOT(state, ISODIG)))
+BYTE_ENS(token->type == SCPI_TOKEN_BINNUM ==> ((POS0(state)[1] == 'b' || POS0(state)[1] == 'B') && NEXT_NOT(state, ISBDIG)))
 CONTENT_ENS((CONSUMED(state) && (long) gh_li >= IDX(state, POS0(state)) + 2) ==>
     (token->type == SCPI_TOKEN_HEXNUM ? ISXDIG(state->buffer[gh_li]) : token->type == SCPI_TOKEN_OCTNUM ? ISODIG(state->buffer[gh_li]) : ISBDIG(state->buffer[gh_li])))
 ;
@@ -231,10 +243,10 @@ TOK_HEAD(scpiLex_StringProgramData)
 __CPROVER_ensures(RET == token->len)
 __CPROVER_ensures(token->type == SCPI_TOKEN_SINGLE_QUOTE_PROGRAM_DATA || token->type == SCPI_TOKEN_DOUBLE_QUOTE_PROGRAM_DATA || token->type == SCPI_TOKEN_UNKNOWN)
 __CPROVER_ensures(token->type == SCPI_TOKEN_UNKNOWN ==> TOK_REJECT(state, token))
-__CPROVER_ensures(token->type != SCPI_TOKEN_UNKNOWN ==> (TOK_SPAN(state, token) && token->len >= 2
-    && token->ptr[0] == (token->type == SCPI_TOKEN_SINGLE_QUOTE_PROGRAM_DATA ? '\'' : '"') && token->ptr[token->len - 1] == token->ptr[0]))
+__CPROVER_ensures(token->type != SCPI_TOKEN_UNKNOWN ==> (TOK_SPAN(state, token) && token->len >= 2))
+BYTE_ENS(token->type != SCPI_TOKEN_UNKNOWN ==> (token->ptr[0] == (token->type == SCPI_TOKEN_SINGLE_QUOTE_PROGRAM_DATA ? '\'' : '"') && token->ptr[token->len - 1] == token->ptr[0]))
 /* the closing quote is not the first half of a doubled quote, and the content is 7-bit */
-__CPROVER_ensures(token->type != SCPI_TOKEN_UNKNOWN ==> (LEX_ATEND(state) || state->pos[0] != token->ptr[0]))
+BYTE_ENS(token->type != SCPI_TOKEN_UNKNOWN ==> (LEX_ATEND(state) || state->pos[0] != token->ptr[0]))
 CONTENT_ENS(CONSUMED(state) ==> state->buffer[gh_li] >= 0)
 ;
 
@@ -242,20 +254,22 @@ TOK_HEAD(scpiLex_ArbitraryBlockProgramData)
 __CPROVER_ensures(token->type == SCPI_TOKEN_ARBITRARY_BLOCK_PROGRAM_DATA || token->type == SCPI_TOKEN_UNKNOWN)
 /* accepted: '#', a non-zero digit n, n digits, then exactly len data bytes = the token */
 __CPROVER_ensures(token->type == SCPI_TOKEN_ARBITRARY_BLOCK_PROGRAM_DATA ==> (token->len >= 0 && __CPROVER_pointer_in_range_dfcc(POS0(state), token->ptr, state->pos)
-    && OFF(token->ptr) + token->len == OFF(state->pos) && RET == DISP(state)
-    && POS0(state)[0] == '#' && POS0(state)[1] >= '1' && POS0(state)[1] <= '9'
+    && OFF(token->ptr) + token->len == OFF(state->pos) && RET == DISP(state) && OFF(token->ptr) - OFF(POS0(state)) >= 3 && OFF(token->ptr) - OFF(POS0(state)) <= 11))
+BYTE_ENS(token->type == SCPI_TOKEN_ARBITRARY_BLOCK_PROGRAM_DATA ==> (POS0(state)[0] == '#' && POS0(state)[1] >= '1' && POS0(state)[1] <= '9'
     && OFF(token->ptr) - OFF(POS0(state)) == 2 + (POS0(state)[1] - '0')))
 CONTENT_ENS((token->type == SCPI_TOKEN_ARBITRARY_BLOCK_PROGRAM_DATA && (long) gh_li >= IDX(state, POS0(state)) + 2 && (long) gh_li < IDX(state, token->ptr)) ==> ISDIG(state->buffer[gh_li]))
 /* not accepted: invalid (cursor rolled back) or incomplete (rest of the input swallowed) */
 __CPROVER_ensures(token->type == SCPI_TOKEN_UNKNOWN ==> (token->len == 0 && RET == 0 && PTR_IS(token->ptr, POS0(state))
-    && (state->pos == POS0(state) || (LEX_ATEND(state) && DISP(state) > 0 && POS0(state)[0] == '#'))))
+    && (state->pos == POS0(state) || (LEX_ATEND(state) && DISP(state) > 0))))
+BYTE_ENS((token->type == SCPI_TOKEN_UNKNOWN && state->pos != POS0(state)) ==> POS0(state)[0] == '#')
 ;
 
 TOK_HEAD(scpiLex_ProgramExpression)
 __CPROVER_ensures(RET == token->len)
 __CPROVER_ensures(token->type == SCPI_TOKEN_PROGRAM_EXPRESSION || token->type == SCPI_TOKEN_UNKNOWN)
 __CPROVER_ensures(token->type == SCPI_TOKEN_UNKNOWN ==> TOK_REJECT(state, token))
-__CPROVER_ensures(token->type == SCPI_TOKEN_PROGRAM_EXPRESSION ==> (TOK_SPAN(state, token) && token->len >= 2 && token->ptr[0] == '(' && token->ptr[token->len - 1] == ')'))
+__CPROVER_ensures(token->type == SCPI_TOKEN_PROGRAM_EXPRESSION ==> (TOK_SPAN(state, token) && token->len >= 2))
+BYTE_ENS(token->type == SCPI_TOKEN_PROGRAM_EXPRESSION ==> (token->ptr[0] == '(' && token->ptr[token->len - 1] == ')'))
 CONTENT_ENS((CONSUMED(state) && (long) gh_li > IDX(state, POS0(state)) && (long) gh_li + 1 < IDX(state, state->pos)) ==> ISEXPR(state->buffer[gh_li]))
 ;
 
